@@ -16,7 +16,7 @@ from .kernel import SimCrash, SimKill
 
 _real = {}
 _installed = False
-_TMP_RE = re.compile(r"\.\d+-\d+\.tmp$")  # pid/thread-id in temporary names must not reach the event log
+_TMP_RE = re.compile(r"(\.\d+)?(-\d+)?\.tmp$")  # pid/thread-id in temporary names must not reach the event log
 
 
 def _fs_for(path):
